@@ -63,3 +63,17 @@ Proof.
   eexists. split; [intros s id; reflexivity|]. split; [vm_compute; reflexivity|].
   unfold w_chain, chain_txs. simpl. intros H. inversion H as [|? ? Hn _]; subst. apply Hn. simpl. auto.
 Qed.
+
+(** The order matters (copies + explicit PutState): loading the coinbase account BEFORE the voting-reward hook and
+    crediting that stale copy afterwards loses the voting reward when the winner is the coinbase account. *)
+Definition block_reward_stale (reward : Z) (winner : option N) (cb : N) (s : lstate) : lstate :=
+  if bp_reward s <=? 0 then send_voting_reward reward winner s
+  else let cbs := get_astate s cb in                       (* loaded before the hook *)
+       put_state (send_voting_reward reward winner s) (add_bal cbs (bp_reward s)).
+Definition w_rstate : lstate :=
+  {| accts := list_to_map [(3%N, {| bal := 1000; nonce := 0%N; code := false |}); (10%N, {| bal := 50; nonce := 0%N; code := false |})];
+     stk := ∅; stk_total := 0; voted := ∅; names := ∅; names0 := ∅; cstor := ∅; bp_reward := 7; receipts := [] |}.
+Theorem block_reward_stale_order_refuted :
+  supply (block_reward_stale 160 (Some 10%N) 10%N w_rstate) = supply w_rstate + bp_reward w_rstate - 160 /\
+  supply (send_reward_coinbase (send_voting_reward 160 (Some 10%N) w_rstate) (Some 10%N)) = supply w_rstate + bp_reward w_rstate.
+Proof. vm_compute. split; reflexivity. Qed.
